@@ -276,6 +276,20 @@ func c19RunPar(f []string) (out []string) {
 
 func c19Run(f []string) []string {
 	switch f[0] {
+	case "C19.steer":
+		// sleep until an item stored now would get an encoded expiry whose low m
+		// bytes are the given ones; the time slept is part of the answer
+		m, want := vutil.Atoi(f[1]), vutil.Unhex(f[2])
+		mod, target := int64(1), int64(0)
+		for i := 0; i < m; i++ {
+			mod *= 256
+			target = target*256 + int64(want[i])
+		}
+		cur := time.Now().Add(c19C.cacheTime).Unix()
+		d := time.Duration(((target-cur)%mod+mod)%mod) * time.Second
+		time.Sleep(d)
+
+		return []string{"ok", vutil.Itoa(int(d))}
 	case "C19.consts":
 		return []string{c19Consts()}
 	case "C19.checkfields":
@@ -390,6 +404,12 @@ type c19Univ struct {
 	// (1 ≤ j ≤ 30): two other 32-byte values with the same prefix can then be
 	// crafted whose concatenation contains the hash across their boundary
 	straddle []c19Straddle
+	// header: names whose hash repeats its first two bytes at offset m (1..2;
+	// steering m bytes of the clock costs up to 256^m seconds of fake time):
+	// with the clock steered so that the low m bytes of an item's encoded expiry
+	// equal the hash's first m bytes, the hash lies across the 8-byte expiry
+	// header and the first stored value of the item
+	header []c19Straddle
 }
 
 type c19Straddle struct {
@@ -429,6 +449,17 @@ func c19BuildUniverse() (u *c19Univ) {
 		for j := 1; j <= 30; j++ {
 			if h[j] == h[0] && h[j+1] == h[1] {
 				u.straddle = append(u.straddle, c19Straddle{n, j})
+
+				break
+			}
+		}
+	}
+	for d := 0; d < 600000 && len(u.header) < 12; d++ {
+		n := fmt.Sprintf("h%d.example.com", d)
+		h := sha256.Sum256([]byte(n))
+		for m := 1; m <= 2; m++ {
+			if h[m] == h[0] && h[m+1] == h[1] {
+				u.header = append(u.header, c19Straddle{n, m})
 
 				break
 			}
@@ -559,6 +590,25 @@ func c19Gen(r *rand.Rand, emit vutil.Emit) {
 			hosts = append([]string{sd.name}, hosts...)
 		}
 
+		var steer *c19Straddle
+		if len(u.header) > 0 && r.IntN(12) == 0 && size != 5 && size != 10 {
+			sd := vutil.Pick(r, u.header)
+			steer = &sd
+			h := hostnameHash(sha256.Sum256([]byte(sd.name)))
+			var h1 hostnameHash
+			for i := range h1 {
+				h1[i] = byte(r.IntN(256))
+			}
+			copy(h1[:], h[sd.j:])
+			listed := map[hostnameHash]bool{}
+			for _, s := range c19Subs(sd.name) {
+				listed[sha256.Sum256([]byte(s))] = true
+			}
+			db = slices.DeleteFunc(db, func(x hostnameHash) bool { return listed[x] || (x[0] == h[0] && x[1] == h[1]) })
+			db = slices.Insert(db, r.IntN(len(db)+1), h1)
+			hosts = append([]string{sd.name}, hosts...)
+		}
+
 		f := []string{"C19.reset", vutil.Itoa(ttl), vutil.Itoa(size), vutil.Hex(suffix), vutil.Itoa(len(db))}
 		for _, h := range db {
 			f = append(f, hex.EncodeToString(h[:]))
@@ -574,6 +624,26 @@ func c19Gen(r *rand.Rand, emit vutil.Emit) {
 		sleeps := []int{0, 1, 499_999_999, 500_000_000, 999_999_999, 1_000_000_000, 1_000_000_001, 1_500_000_000,
 			ttl, ttl + 1, ttl + 999_999_999, ttl + 1_000_000_000, max(ttl-1, 0), max(ttl-1_000_000_000, 0), ttl / 2}
 		for i, n := 0, 10+r.IntN(25); i < n; i++ {
+			if steer != nil && (i == 1 || i == 9) {
+				// steer the clock, look the name up (stores the item), look it up again
+				hh := sha256.Sum256([]byte(steer.name))
+				emit("C19.steer", vutil.Itoa(steer.j), vutil.Hex(string(hh[:steer.j])))
+				ps, icann := publicsuffix.PublicSuffix(steer.name)
+				subs := c19Subs(steer.name)
+				for rep := 0; rep < 2; rep++ {
+					f = []string{"C19.check", vutil.Hex(steer.name), vutil.Hex(ps), vutil.B(icann), vutil.Itoa(len(subs))}
+					for _, s := range subs {
+						h := sha256.Sum256([]byte(s))
+						f = append(f, vutil.Hex(s), hex.EncodeToString(h[:]))
+						p := [2]byte{h[0], h[1]}
+						liveUntil[p] = max(liveUntil[p], now+ttl)
+					}
+					f = append(f, "0", "0", "0", "0", "0")
+					emit(f...)
+				}
+
+				continue
+			}
 			if r.IntN(100) < 22 {
 				d := vutil.Pick(r, sleeps)
 				now += d
